@@ -41,6 +41,19 @@ class T:
     return 'T(%r%s)' % (self.tag, ''.join(', %r' % (a,) for a in self.args))
 
 
+def strict_eq(a, b):
+  """equality of canonical observations that keeps Python's types apart (True is not 1, 2 is not 2.0)"""
+  if isinstance(a, T) or isinstance(b, T):
+    return isinstance(a, T) and isinstance(b, T) and a.tag == b.tag and strict_eq(a.args, b.args)
+  if isinstance(a, (list, tuple)) or isinstance(b, (list, tuple)):
+    return (isinstance(a, (list, tuple)) and isinstance(b, (list, tuple)) and len(a) == len(b) and
+            all(strict_eq(x, y) for x, y in zip(a, b)))
+  if isinstance(a, dict) or isinstance(b, dict):
+    return (isinstance(a, dict) and isinstance(b, dict) and len(a) == len(b) and
+            all(k in b and strict_eq(v, b[k]) for k, v in a.items()))
+  return type(a) is type(b) and a == b
+
+
 def cstr(s):
   """Coq string literal (bytes of the UTF-8 encoding)."""
   return '"' + s.replace('"', '""') + '"'
